@@ -181,18 +181,18 @@ EXTRA = {
     "C03": "Also: SmtpImpl.tla, the implementation-shaped session loop, is checked to refine the contract command by command (two deviations found as predicted); "
            "a STARTTLS family (real TLS negotiation) is judged against the grown contract as a note, not a verdict.",
     "C05": "Also: address-literal domains in lists and addresses; eight concurrent sessions per configuration group under the race detector.",
-    "C07": "Also: deliveries during which the disk refuses further bytes (RLIMIT_FSIZE) and listings under descriptor exhaustion (RLIMIT_NOFILE) on the file store.",
+    "C07": "Also: deliveries during which the disk refuses further bytes (RLIMIT_FSIZE) and listings under descriptor exhaustion (RLIMIT_NOFILE) on the file store; every store call runs under a watchdog (a call that never returns is the event 'hung', which the contract does not allow).",
     "C09": "Also: after-events of every history (exactly one 'deleted' per message that left), walk completeness (a walk is shown every mailbox that holds mail throughout), "
            "two mailboxes of one hash directory emptied and refilled concurrently, a damaged index next to a healthy bucket mate; MemStoreImpl refines ConcMailstore.",
     "C12": "Also: rejected schedules are run again in isolation before they are reported; the promptness bound does not grow with the configured pause.",
-    "C13": "Also: idle-timeout family; STLS over several connections (Pop3Tls.tla) as a note stage beyond the statement.",
-    "C14": "Also: fetch-while-delivering (RestRaceTrace.tla): what /latest shows is one message the store held, the latest at some moment of the request; a panic inside the client library is an answer the contract does not know.",
+    "C13": "Also: idle-timeout family; whitespace-only command lines; STLS over several connections (Pop3Tls.tla) as a note stage beyond the statement.",
+    "C14": "Also: fetch-while-delivering (RestRaceTrace.tla): what /latest shows is one message the store held, the latest at some moment of the request; a panic inside the client library is an answer the contract does not know; requests to the attachment route for numbers no message has (negative, unparsable) must be answered.",
     "C15": "Also: HubImpl.tla (hub actor + listener close protocol, deviations as predictions), bursts through the extension host incl. a disconnect with buffer and operation queue both full, "
            "and an end-to-end stage: server.FullAssembly over real SMTP/POP3/HTTP/WebSocket (v1 and v2 monitors, mailbox cap, refused handshakes) validated against the composed contract Inbucket.tla.",
     "C16": "Also: DispatcherImpl.tla (lanes and drain goroutines, four deviations as predictions), multi-recipient transactions incl. refused ones, a Lua script as the listener, "
-           "removals racing each other, index-write faults at the cap.",
+           "removals racing each other, index-write faults at the cap, other listeners registered / replaced / removed while removals race (the recorded listener still sees each event once, one at a time).",
     "C17": "Also: failing handlers scribble on their argument first; percent signs in deny texts; crash of a concurrent group attributed to the group.",
-    "C19": "Also: a third of the SMTP schedules run against an SMTPS listener with clients that reset the connection; long-pause scanner variant; rejected schedules re-run in isolation.",
+    "C19": "Also: a third of the SMTP schedules run against an SMTPS listener with clients that reset the connection; long-pause scanner variant; rejected schedules re-run in isolation; idle-timeout family (silent clients that stay connected: the server ends the sessions itself and Drain returns).",
 }
 
 
